@@ -23,6 +23,35 @@ import (
 //  6. accumulators are named by class (union-find over conversions and
 //     "result = first operand ∘ ..."), loop variables by nesting depth,
 //     recodings and merged integers by order of appearance.
+//
+// Insensitivity to behaviour-preserving spellings (the normal form must be the
+// same for both; see also skelcond.go and the extractor):
+//
+//   - guards are kept in condition normal form: negations pushed inward (De
+//     Morgan, !(a==b) = a!=b, !(a<b) = a>=b), comparisons brought to one side
+//     (a<b = b>a = b-a>0, a<=b = b-a+1>0), operands of &&/|| sorted, b==true /
+//     b!=false / a named bool local = the condition itself;
+//   - `if c {A} else {B}` = `if !c {B} else {A}` (positive literal first),
+//     `if c {} else {B}` = `if !c {B}`, `if a {if b {A}}` = `if a && b {A}`,
+//     switch = if/else-if chain;
+//   - every case analysis on the sign of ONE digit — any nesting, polarity or
+//     order of d>0, d<0, d!=0, d==0, d>=0, d<=0 guards, adjacent ifs on the
+//     same digit, a flag guard inside or outside — becomes the canonical
+//     chain `if d>0 {P} else {if d<0 {N} else {if d==0 {Z}}}` (signSwitch);
+//   - a counted loop is one node whether written with three clauses (any
+//     spelling of the bound: i<n, n>i, !(i>=n), i<=n-1; i++, i+=1, i=i+1),
+//     with `range x`, `range x` with a value variable (v = x[i]) or over a
+//     constant-length array / array slice;
+//   - calls of small unexported helpers of the package are inlined (bounded
+//     depth, no early return, no access to point coordinates); delegation
+//     targets (dispatchers, pair members, routines) stay `call` events;
+//   - runs of adjacent declarations (recodings, table constructions, loops of
+//     them) are sorted: they commute with each other, not with group operations.
+//
+// NOT normalised (known limits): the order of two additions into one
+// accumulator; roles of locals of one type are numbered by first use, so
+// swapping two independent statements that first use two such locals of ONE
+// twin renames them; which of several equal-length slices bounds a term loop.
 // ---------------------------------------------------------------------------
 
 func isGroupOp(k string) bool {
